@@ -228,6 +228,11 @@ func blockLine(b *lib.Bundle) string {
 	for _, c := range sortedKeys(b.Classes) {
 		switch def := b.Classes[c].(type) {
 		case *core.SierraClass:
+			if def.Compiled == nil {
+				// delivered without a compiled class (deprecated compiled format): no V2 hash can be computed
+				fmt.Fprintf(&sb, " cls=%s:n:0", hexNat(&c))
+				break
+			}
 			v2 := def.Compiled.Hash(core.HashVersionV2)
 			fmt.Fprintf(&sb, " cls=%s:s:%s", hexNat(&c), hexNat(&v2))
 		default:
@@ -260,7 +265,7 @@ func modelErrClass(err error) string {
 		return "err:contractExists"
 	case has("state commitment mismatch"), has("does not match the expected root"):
 		return "err:root"
-	case has("cannot migrate"), has("metadata not found"), has("not available in newClasses"), has("must be a SierraClass"),
+	case has("cannot migrate"), has("metadata not found"), has("not available in newClasses"), has("must be a SierraClass"), has("malformed compiled class"),
 		has("unmigrate"), has("casm metadata"), has("revert migrated"):
 		return "err:casm"
 	case has("get class"), has("remove declared classes"), has("remove classes of deployed contracts"):
